@@ -85,14 +85,23 @@ func startProc(bin, dir string, env []string) (*proc, error) {
 }
 
 // renderAll asks the process to render everything once (watchdog: 2 min).
-func (p *proc) renderAll() (map[string][]rres, error) {
+func (p *proc) renderAll() (map[string][]rres, error) { return p.ask("R") }
+
+// send writes a command that has no answer (L: start the background render loop).
+func (p *proc) send(cmd string) error {
+	_, err := io.WriteString(p.in, cmd+"\n")
+	return err
+}
+
+// ask sends a command and collects the answer up to END.
+func (p *proc) ask(cmd string) (map[string][]rres, error) {
 	type ret struct {
 		m   map[string][]rres
 		err error
 	}
 	ch := make(chan ret, 1)
 	go func() {
-		if _, err := io.WriteString(p.in, "R\n"); err != nil {
+		if _, err := io.WriteString(p.in, cmd+"\n"); err != nil {
 			ch <- ret{nil, err}
 			return
 		}
@@ -156,13 +165,36 @@ type batch struct {
 	c       *core.Ctx
 	cases   []*tcase
 	pkg     *corpus.Pkg
-	txtRoot string
+	txtRoot string // where the in-process handler writes text files (TEMPL_DEV_MODE_ROOT of the harness)
+	pubRoot string // where the driver processes read them; filled by publish() only
 	// results
 	matrixFailed map[string]bool
 }
 
 func (b *batch) file(tc *tcase) string {
 	return filepath.Join(b.pkg.Dir, strings.ToLower(tc.Name)+".templ")
+}
+
+// publish makes the handler's current text file of tc visible to the driver
+// processes: complete content, explicit mtime, atomically (rename). The text
+// file name hashes only the template path, so it is the same in both roots.
+// This removes two wall-clock effects the statement does not speak about: a
+// reader seeing a half-written file, and the runtime's "modified <100ms ago"
+// shortcut (mtimes are in 2001 and strictly increasing per step).
+func (b *batch) publish(tc *tcase, stamp time.Time) {
+	name := filepath.Base(runtime.GetDevModeTextFileName(b.file(tc)))
+	data, err := os.ReadFile(filepath.Join(b.txtRoot, name))
+	if err != nil {
+		return
+	}
+	tmp := filepath.Join(b.pubRoot, name+".tmp")
+	if err := os.WriteFile(tmp, data, 0o644); err != nil {
+		core.Infra("publish: %v", err)
+	}
+	_ = os.Chtimes(tmp, stamp, stamp)
+	if err := os.Rename(tmp, filepath.Join(b.pubRoot, name)); err != nil {
+		core.Infra("publish: %v", err)
+	}
 }
 
 func (b *batch) drop(tc *tcase) {
@@ -235,7 +267,8 @@ func (b *batch) run() {
 	h := generatecmd.NewFSEventHandler(discardLog, b.pkg.Dir, true,
 		[]generator.GenerateOpt{generator.WithVersion(templ.Version())}, false, false, generatecmd.FileWriter, false)
 	base := time.Date(2001, 1, 1, 0, 0, 0, 0, time.UTC)
-	env := []string{"TEMPL_DEV_MODE_ROOT=" + b.txtRoot}
+	b.pubRoot = corpus.Scratch("c16pub")
+	env := []string{"TEMPL_DEV_MODE_ROOT=" + b.pubRoot}
 	var procs []*proc
 	defer func() {
 		for _, p := range procs {
@@ -254,6 +287,22 @@ func (b *batch) run() {
 			break
 		}
 		stamp := base.Add(time.Duration(k) * time.Hour) // strictly increasing, far in the past
+		// burst: the old binaries keep rendering a subset back-to-back while the edit is
+		// processed and published (a served program under load); no pause is introduced
+		// between the renders before and after the update.
+		var burstSet []string
+		if k > 0 {
+			for _, tc := range active {
+				if tc.Group == "random" && len(burstSet) < 40 {
+					burstSet = append(burstSet, tc.Name)
+				}
+			}
+			if len(burstSet) > 0 {
+				for _, p := range procs {
+					_ = p.send("L " + strings.Join(burstSet, " "))
+				}
+			}
+		}
 		// (1)/(2): write version k, let the real handler process the event
 		var wg sync.WaitGroup
 		sem := make(chan struct{}, 8)
@@ -289,11 +338,30 @@ func (b *batch) run() {
 			}(tc)
 		}
 		wg.Wait()
-		// explicit mtimes for every text file (defeats the runtime's 100ms-since-mtime shortcut
-		// and makes "newer than what the process cached" true at every step)
+		// publish every text file with an explicit mtime (defeats the runtime's 100ms-since-mtime
+		// shortcut and makes "newer than what the process cached" true at every step)
 		for _, tc := range b.cases {
 			if tc.alive {
-				_ = os.Chtimes(runtime.GetDevModeTextFileName(b.file(tc)), stamp, stamp)
+				b.publish(tc, stamp)
+			}
+		}
+		// verdict renders of the burst: right after the update, still without a pause
+		bursts := make([]map[string][]rres, len(procs))
+		if len(burstSet) > 0 {
+			for j, p := range procs {
+				m, err := p.ask("V")
+				if err != nil {
+					c.Inconclusive(fmt.Sprintf("step %d: burst of build %d: %v", k, j, err))
+					return
+				}
+				bursts[j] = m
+				c.Add("burst_loop_passes_spanning_an_update", m["#passes"][0].A)
+				if us := int64(m["#max_pass_us"][0].A); us > c.Get("burst_max_pass_us") {
+					c.Add("burst_max_pass_us", int(us-c.Get("burst_max_pass_us")))
+				}
+				if m["#max_pass_us"][0].A >= 100000 {
+					c.Add("burst_loops_with_a_gap_over_100ms", 1)
+				}
 			}
 		}
 		// (3) fresh build of the regenerated code
@@ -377,6 +445,16 @@ func (b *batch) run() {
 				if !okk && !blamed {
 					blamed = true // longer windows contain this one
 					b.violate2(tc, j, k, false, why)
+				}
+				// same window, but the old binary never stopped rendering across the update
+				if bo, in := bursts[j][tc.Name]; in && okk {
+					c.Eval(1)
+					c.Add("burst_windows_checked", 1)
+					if ok2, why2 := same(bo, want); !ok2 {
+						key := "continuous-rendering: old binary that renders without pause across a text-only update keeps serving the old text"
+						noteKey(key)
+						c.Violate(key, fmt.Sprintf("%s (%s, versions %d->%d, after %d back-to-back passes): %s", key, tc.Name, j, k, bursts[j]["#passes"][0].A, why2), tc)
+					}
 				}
 			}
 			if tc.cls[k].Go {
@@ -554,6 +632,29 @@ func hostileClass(s string) []string {
 
 // parses: workload filter (not an oracle): the source is accepted by the
 // parser and its generated code is gofmt-able, i.e. the watcher would accept it.
+// b64like / svgPath: deterministic large static payloads without any templ metacharacter.
+func b64like(n int) string {
+	const al = "ABCDEFGHIJKLMNOPQRSTUVWXYZabcdefghijklmnopqrstuvwxyz0123456789+/"
+	b := make([]byte, n)
+	x := uint32(12345)
+	for i := range b {
+		x = x*1664525 + 1013904223
+		b[i] = al[x>>26]
+	}
+	return string(b)
+}
+
+func svgPath(n int) string {
+	var sb strings.Builder
+	sb.WriteString("M0 0")
+	x := uint32(777)
+	for sb.Len() < n {
+		x = x*1664525 + 1013904223
+		fmt.Fprintf(&sb, " L%d.%d %d", x>>25, (x>>12)&7, (x>>18)&127)
+	}
+	return sb.String()
+}
+
 func parses(src string) bool {
 	defer func() { _ = recover() }()
 	t, err := parser.ParseString(src)
@@ -680,6 +781,27 @@ func Run(c *core.Ctx) {
 					return []*node{{K: "elem", S: "div", Attrs: []attr{{K: "const", Name: "title", Val: strings.ReplaceAll(s, `'`, "&#39;"), Q: `'`}}}}
 				}},
 			}
+			// ---- large literals: one merged static text run far beyond 64 KiB between two expressions
+			// (inline base64 image, inline svg path, big script/style): the text file holds it on ONE line
+			for _, n := range []int{80_000, 300_000} {
+				blob := b64like(n)
+				path := svgPath(n)
+				hps = append(hps,
+					hp{fmt.Sprintf("large-text-%dk", n/1000), []string{blob}, func(s string) []*node {
+						return []*node{{K: "elem", S: "div", Kids: []*node{{K: "expr", S: "a.S"}, {K: "text", S: s}, {K: "expr", S: "a.T"}}}}
+					}},
+					hp{fmt.Sprintf("large-img-base64-%dk", n/1000), []string{blob}, func(s string) []*node {
+						return []*node{{K: "expr", S: "a.S"}, {K: "void", S: "img", Attrs: []attr{{K: "const", Name: "src", Val: "data:image/png;base64," + s, Q: `"`}}}, {K: "expr", S: "a.T"}}
+					}},
+					hp{fmt.Sprintf("large-svg-%dk", n/1000), []string{path}, func(s string) []*node {
+						return []*node{{K: "expr", S: "a.S"}, {K: "elem", S: "svg", Attrs: []attr{{K: "const", Name: "viewBox", Val: "0 0 100 100", Q: `"`}},
+							Kids: []*node{{K: "void", S: "path", Attrs: []attr{{K: "const", Name: "d", Val: s, Q: `"`}}}}}, {K: "expr", S: "a.T"}}
+					}},
+					hp{fmt.Sprintf("large-script-%dk", n/1000), []string{blob}, func(s string) []*node {
+						return []*node{{K: "script", Kids: []*node{{K: "stext", S: "var a = "}, {K: "sexpr", S: "a.S"}, {K: "stext", S: ";\nvar blob = \"" + s + "\";\nvar b = "}, {K: "sexpr", S: "a.T"}, {K: "stext", S: ";"}}}}
+					}},
+				)
+			}
 			accepted, rejected := map[string]int{}, 0
 			for _, h := range hps {
 				for _, s := range h.pool {
@@ -694,7 +816,12 @@ func Run(c *core.Ctx) {
 					for _, x := range cl {
 						accepted[h.pos+"/"+x]++
 					}
-					cases = append(cases, &tcase{Name: n, Group: "hostile", Label: h.pos + " " + core.Q(s), Vers: []string{src}, Kinds: []string{""}})
+					label := h.pos + " " + core.Q(s)
+					if len(s) > 1000 {
+						label = h.pos
+						c.Add("large_literal_programs", 1)
+					}
+					cases = append(cases, &tcase{Name: n, Group: "hostile", Label: label, Vers: []string{src}, Kinds: []string{""}})
 				}
 			}
 			c.Set("hostile_accepted_by_parser_position_class", accepted)
